@@ -19,7 +19,7 @@ CHECKS = {
         'partition/uniqueness; bin_count and each experimental entry are the count / the estimator over exactly '
         'that sub-list; pdist order enumerates exactly the pairs i<j once and keeps k-th distance and k-th '
         'difference on the same pair; Matheron/Dowd/Genton as generated from estimators.py equal the documented '
-        'formulas (Genton only for even N: D15 counter-example proved). Tie: translator for estimator formulas; '
+        'formulas (Genton only for even N: D15 counter-example proved), Cressie-Hawkins over the reals; closed form of the condensed index; the comparison operators of the lag-class loop are extracted from the source. Tie: translator for estimator formulas; '
         'correspondence of groups/counts (exact) and semivariances (1e-9) on the implementation\'s own distance '
         'vector for all binnings/estimators/storages; brute-force pair-set oracles for dense and sparse storage.',
    note='pdist / cKDTree numerical contents are taken from the implementation (C20 checks them); Cressie-Hawkins is '
@@ -44,8 +44,8 @@ CHECKS.update({
    text='Theorems about the definitions generated from models.py on every run: for spherical, exponential, gaussian, '
         'cubic, stable (r>0, c0>=0, s>0): value b at lag 0, monotone in the lag, within [b, b+c0], >= 95 % of the sill '
         'at the effective range (exactly the sill at/beyond it for spherical and cubic), Tendsto b+c0 at infinity, '
-        'nugget additivity; array call = map; argument slices of +-sums tile the coefficient vector; two-component sum = '
-        'components + one nugget. Matern: zero-lag clause proved, the analytic clauses reduced to explicit hypotheses '
+        'nugget additivity; array call = map; argument slices of +-sums tile the coefficient vector; a sum of ANY number of '
+        'components = components + one nugget. Matern: zero-lag clause proved, the analytic clauses reduced to explicit hypotheses '
         'about x^s K_s(x) (partial). Tie: translator (a changed constant/comparison breaks a named theorem) + Float/Rat '
         'twins of the generated definitions executed against the Python functions + numeric oracle of every clause.',
    note='Mathlib has no modified Bessel functions: Matern monotonicity/bounds/90 % are validated numerically only. '
@@ -54,7 +54,8 @@ CHECKS.update({
  'C07': dict(
    text='Theorems: neighbour selection returns min(N, |in range|) candidates within range, none farther than a rejected '
         'one (stable insertion sort = Mathlib insertionSort: sorted permutation); assembled system has the documented '
-        'shape; a returned result carries an exact certificate A x = b with estimate = w.v and variance = w.g0 + mu; '
+        'shape and IS the ordinary-kriging equations (list model <-> IsOKSol bridge); a returned result carries an exact '
+        'certificate A x = b, satisfies IsOKSol (so all C08 theorems apply to the executable model), estimate = w.v and variance = w.g0 + mu; '
         'per-call bookkeeping for every outcome list: i-th variance belongs to i-th estimate, NaN exactly for failed '
         'targets, counters = numbers of failures (induction over the target list). Tie: per-target correspondence - Lean '
         'selects neighbours on the exact float distances and solves the system exactly over Q; z, sigma^2, NaN pattern and '
@@ -85,7 +86,7 @@ CHECKS.update({
         'values by k scales the three estimators by k^2; scaling coordinates by s>0 scales even/uniform edges by s and keeps '
         'every pair in its class; rational rigid motions preserve squared distances. Tie: C01 pipeline theorem + metamorphic '
         'runs on the implementation.',
-   note='Cressie-Hawkins scaling/permutation (needs sqrt) and clustering / rule-based binnings under inexact transforms are '
+   note='Cressie-Hawkins is proved over the reals on the generated definition (C10_cressie); clustering / rule-based binnings under inexact transforms are '
         'validated only. Transformed distances within 1e-9 of an edge are excluded as the property allows.',
    technique='Lean 4 proof (List.Perm, bijection on index pairs, homogeneity) + metamorphic correspondence', design='6 C10'),
  'C11': dict(
@@ -111,7 +112,7 @@ CHECKS.update({
    technique='Lean 4 proof (eraseIdx lemmas) + correspondence', design='6 C17'),
  'C20': dict(
    text='Theorems: squareform is symmetric with zero diagonal and holds the pair distance; neighbour search = N nearest '
-        'among the in-range candidates (as C07); identical for sparse and dense rows; the double index remap of pair '
+        'among the in-range candidates (as C07); closed-form bijection between the condensed order and the upper triangle; identical for sparse and dense rows; the double index remap of pair '
         'sampling is injective for samples without replacement. Tie: MetricSpace.dists / diagonal / find_closest / '
         'ProbabalisticMetricSpace vs brute force and the model.',
    note='cKDTree and the NumPy RNG are external.',
@@ -136,7 +137,7 @@ CHECKS.update({
         'unfiltered sigma (D5). Tie: translator (bounds) + recording of what reaches curve_fit vs the model. Local '
         'optimality is VALIDATED numerically by restarts (not proved).',
    note='scipy.optimize.curve_fit is external: only its inputs, bounds and the local optimality of its output are checked '
-        '(objective decrease relative to the weighted total sum of squares). Known finding D13 (stable, shape -> 0).',
+        '(objective decrease relative to the weighted total sum of squares). Known findings D13 (stable, shape -> 0), D18, D19 (trf stalls).',
    technique='Lean 4 proof (finite table by decide, list lemmas) + translator + recorded-input correspondence', design='6 C05'),
  'C06': dict(
    text='Theorem for ALL finite histories of assignments and interleaved reads: in the taint-tracking cache machine every '
@@ -187,7 +188,7 @@ CHECKS.update({
    technique='Lean 4 proof (store model, induction over operation sequences; decide on the generated table) + translator + differential correspondence', design='6 C18'),
  'C19': dict(
    text='Theorems: lower <= median <= upper for every q in [0,100]; lowering q never narrows an interval (quantile '
-        'monotonicity incl. out-of-range levels); identical members give three equal bounds; counter-examples for the '
+        'monotonicity incl. out-of-range levels); the middle value is np.median; identical members give three equal bounds; counter-examples for the '
         'truncated level (D12) and the re-read resolved maxlag (D11). Tie: Monte-Carlo members re-created independently, '
         'their percentiles taken by the model and compared with propagate; reproducibility, zero-noise identity, source '
         'snapshot before/after.',
